@@ -185,7 +185,9 @@ pub fn run(a: &Args, rep: &mut Report) {
         let r1prog = probe_prog(Probe::R1, c.offs);
         let r = sys::catch(|| -> Result<Vec<(u8, u64, u64)>, String> {
             let mut vm = if c.via_set_program {
-                let mut vm = Vm::new(c.kind, Some(&r1prog), (c.offs.1 / 2 + 8, 0))?;
+                // initial offsets: either unrelated ones or the SAME two offsets swapped (same buffer size)
+                let init = if c.pkts[0] % 2 == 0 { (c.offs.1, c.offs.0) } else { (c.offs.1 / 2 + 8, 0) };
+                let mut vm = Vm::new(c.kind, Some(&r1prog), init)?;
                 vm.set_program(&prog, c.offs)?;
                 vm
             } else {
